@@ -59,7 +59,10 @@ def pe_ref_locate(R, rva):
 
 
 class SynthPE:
-    def __init__(self, rng, plus=None):
+    def __init__(self, rng, plus=None, imports=False):
+        """imports: the first file-backed section starts with an import directory (descriptors, lookup / address tables with
+        by-name and by-ordinal entries, hint/name entries, dll names); self.import_fields lists (file offset, width, what)
+        of every RVA-valued field of it"""
         self.rng = rng
         plus = rng.random() < 0.5 if plus is None else plus
         f, names = OPT64 if plus else OPT32
@@ -120,6 +123,48 @@ class SynthPE:
             struct.pack_into("<8sIIIIIIHHI", img, so + 40 * i, *[s[n] for n in SEC_FIELDS])
         for o, data in blobs:
             img[o:o + len(data)] = data
+        self.import_fields = []
+        if imports:
+            host = next((c for c in secs if c["SizeOfRawData"] >= 0x200 and c["VirtualSize"] >= 0x200), None)
+            if host is not None and ndirs >= 2:
+                w = 8 if plus else 4
+                base_off, base_rva = host["PointerToRawData"], host["RVA"]
+                ndll = rng.randrange(1, 3)
+                blob = bytearray(0x200)
+                cur = 20 * (ndll + 1)
+                descs = []
+                for k in range(ndll):
+                    nimp = rng.randrange(1, 4)
+                    ilt, iat = cur, cur + w * (nimp + 1)
+                    cur = iat + w * (nimp + 1)
+                    ents = []
+                    for j in range(nimp):
+                        if rng.random() < 0.3:
+                            ents.append((1 << (8 * w - 1)) | rng.randrange(1, 500))
+                        else:
+                            nm = ("Func%d_%d" % (k, j)).encode() + b"\0"
+                            struct.pack_into("<H", blob, cur, rng.randrange(100))
+                            blob[cur + 2:cur + 2 + len(nm)] = nm
+                            ents.append(base_rva + cur)
+                            cur += 2 + len(nm) + (len(nm) & 1)
+                    for j, v in enumerate(ents):
+                        struct.pack_into("<Q" if plus else "<I", blob, ilt + w * j, v)
+                        struct.pack_into("<Q" if plus else "<I", blob, iat + w * j, v)
+                        self.import_fields += [(base_off + ilt + w * j, w, "lookup"), (base_off + iat + w * j, w, "address")]
+                    dn = ("LIB%d.dll" % k).encode() + b"\0"
+                    blob[cur:cur + len(dn)] = dn
+                    descs.append((base_rva + ilt, rng.getrandbits(31), 0, base_rva + cur, base_rva + iat))
+                    cur += len(dn) + (len(dn) & 1)
+                for k, dsc in enumerate(descs):
+                    struct.pack_into("<IIIII", blob, 20 * k, *dsc)
+                    self.import_fields += [(base_off + 20 * k, 4, "descriptor.lookup"), (base_off + 20 * k + 12, 4, "descriptor.name"), (base_off + 20 * k + 16, 4, "descriptor.address")]
+                if cur <= 0x200:
+                    img[base_off:base_off + 0x200] = blob
+                    dirs[1] = (base_rva, 20 * (ndll + 1))
+                    struct.pack_into("<II", img, d + 8, *dirs[1])
+                    self.import_fields += [(d + 8, 4, "directory.rva"), (d + 12, 4, "directory.size")]
+                else:
+                    self.import_fields = []
         self.image = bytes(img)
         self.coff, self.opt, self.dirs, self.sections, self.e_lfanew, self.plus = co, op, dirs, secs, lfanew, plus
 
